@@ -7,6 +7,7 @@ is proved here for **all** names and contents are its ingredients and the exact 
 -/
 import Helm.Model.ChartIO
 import Helm.Lemmas.ChartIO
+import Helm.Lemmas.Ignore
 
 namespace Helm.Props.C15
 open Helm.ChartIO Helm.ArchivePath
@@ -88,5 +89,64 @@ theorem values_written_only_from_raw (name : Str) (apiV1 : Bool) (metaDoc : Byte
     saveEntries (.mk name apiV1 metaDoc none none none [] [] []) [] =
       [⟨join (join [] name) "Chart.yaml".toList, metaDoc⟩] := by
   simp [saveEntries, saveEntries.saveDeps]
+
+/-! ## 4. .helmignore: what a directory load (and therefore a package) leaves out -/
+
+open Helm.Ignore in
+/-- Nothing that the rules ignore, and nothing below a directory they ignore, is loaded from
+a chart directory -- so none of it reaches `Save` and the packaged archive. -/
+theorem ignored_files_are_not_loaded (rules : List Rule) (files : List (List Char)) (p : List Char)
+    (h : p ∈ loadDir rules files) :
+    ignore rules p false = false ∧ ∀ a ∈ ancestors p, ignore rules a true = false :=
+  (loaded_iff rules p).mp ((loadDir_sound rules files p).mp h).2
+
+open Helm.Ignore in
+/-- ... and everything else is (the rules exclude nothing more than they say). -/
+theorem unignored_files_are_loaded (rules : List Rule) (files : List (List Char)) (p : List Char)
+    (hp : p ∈ files) (h1 : ignore rules p false = false) (h2 : ∀ a ∈ ancestors p, ignore rules a true = false) :
+    p ∈ loadDir rules files :=
+  (loadDir_sound rules files p).mpr ⟨hp, (loaded_iff rules p).mpr ⟨h1, h2⟩⟩
+
+open Helm.Ignore in
+/-- An ignored directory hides all of its contents. -/
+theorem ignored_directory_hides_contents (rules : List Rule) (files : List (List Char)) (d rest : List Char)
+    (h : ignore rules d true = true) : (d ++ '/' :: rest) ∉ loadDir rules files := by
+  intro hm
+  have := ((loadDir_sound rules files _).mp hm).2
+  rw [ignored_dir_hides rules d rest h] at this
+  cases this
+
+open Helm.Ignore in
+/-- For rule sets without `!`: an entry is ignored exactly when some rule that applies to its
+kind (directory-only rules apply to directories only) matches it -- whatever the order of the
+rules, in particular whatever comes before the rule that matches. -/
+theorem positive_rules_any_match (rules : List Rule) (hp : ∀ r ∈ rules, r.negate = false)
+    (path : List Char) (isDir : Bool) (hne : path ≠ [] ∧ path ≠ ['.'] ∧ path ≠ ['.', '/']) :
+    ignore rules path isDir = true ↔ ∃ r ∈ rules, hits r path isDir = true :=
+  ignore_positive_iff rules hp path isDir hne
+
+open Helm.Ignore in
+theorem positive_rules_order_immaterial (r1 r2 : List Rule) (hperm : r1.Perm r2) (hp : ∀ r ∈ r1, r.negate = false)
+    (path : List Char) (isDir : Bool) : ignore r1 path isDir = ignore r2 path isDir :=
+  ignore_positive_perm r1 r2 hperm hp path isDir
+
+open Helm.Ignore in
+/-- What the patterns mean: a pattern without `*` and `?` matches only itself; `*ext` matches
+the names ending in ext whose remainder has no separator. -/
+theorem literal_pattern (p : List Char) (hp : Literal p) (n : List Char) : glob p n = decide (p = n) :=
+  glob_literal p hp n
+
+open Helm.Ignore in
+theorem star_suffix_pattern (ext : List Char) (he : Literal ext) (n : List Char) :
+    glob ('*' :: ext) n = true ↔ ∃ pre, n = pre ++ ext ∧ '/' ∉ pre := glob_star_suffix ext he n
+
+open Helm.Ignore in
+/-- the layout `helm create` writes: a directory-only rule, then file rules.  A file matched
+only by a later rule is ignored, a directory matched by the first rule hides its contents. -/
+example :
+    let rules := (rulesOf ["docs/".toList, "# comment".toList, "".toList, "*.bak".toList, "secret.txt".toList]).getD []
+    loadDir rules ["Chart.yaml".toList, "notes.bak".toList, "secret.txt".toList, "docs/a.md".toList,
+      "templates/x.yaml".toList, "templates/.hidden".toList, "sub/secret.txt".toList, "docs".toList]
+      = ["Chart.yaml".toList, "templates/x.yaml".toList, "docs".toList] := by decide
 
 end Helm.Props.C15
